@@ -853,7 +853,7 @@ const WORDS: [&str; 16] = [
 /// glob imports of two modules exporting the same name, and a neighbour that merely uses the same
 /// spellings as ordinary identifiers.
 fn gen_special(r: &mut Rng) -> String {
-    let which = r.below(10);
+    let which = r.below(11);
     gen_special_of(r, which)
 }
 
@@ -981,6 +981,27 @@ fn gen_special_of(r: &mut Rng, which: u64) -> String {
             "#stage(macro)\nfn {m}(){{\n    str_to_number(\"0.2.5\") |> lift_f\n}}\n#stage(main)\nfn dsp(){{\n    {m}!() * 2.0\n}}\n",
             m = w[0]
         ),
+        // two sum types sharing a constructor name: which of them a bare `Hit(..)` belongs to is
+        // decided by the order in which the declarations are registered (by type name, so the
+        // parameter of `score` is the one that wins alone). The type names come from a pool of
+        // four and are declared in either order, so that jobs of one set meet the same names
+        // first-mentioned in the other order
+        10 => {
+            let pool = ["level", "cutoff", "detune", "attack"];
+            let i = r.below(4) as usize;
+            let j = (i + 1 + r.below(3) as usize) % 4;
+            let (a, b) = (pool[i], pool[j]);
+            let win = if format!("T{a}") > format!("T{b}") { a } else { b };
+            let lose = if win == a { b } else { a };
+            let decl = |n: &str, other: &str| format!("type T{n} = Hit(float) | {other}{n}(float)\n");
+            let (first, second) = if r.chance(1, 2) { (win, lose) } else { (lose, win) };
+            format!(
+                "{}{}fn score(v: T{win}) -> float {{\n    match v {{\n        Hit(x) => x * 2.0,\n        Only{win}(x) => x\n    }}\n}}\nfn dsp(){{\n    score(Hit({k:?})) + score(Only{win}(1.0))\n}}\n",
+                decl(first, "Only"),
+                decl(second, "Only"),
+                k = r.range(1, 9) as f64
+            )
+        }
         3 => format!(
             "mod {a} {{\n    pub fn {f}(){{ 1.0 }}\n    pub fn only_{a}(){{ 10.0 }}\n}}\nmod {b} {{\n    pub fn {f}(){{ 2.0 }}\n    pub fn only_{b}(){{ 20.0 }}\n}}\nuse {a}::*\nuse {b}::*\n\nfn dsp(){{\n    {f}() + only_{a}() + only_{b}()\n}}\n",
             a = w[0],
@@ -1146,7 +1167,7 @@ fn gen_scenario(seed: u64) -> Scenario {
     let identical = r_cfg.chance(1, 4);
     // family: every job is an instance of the same special template (same shape, other constants
     // and names), so all threads go through the same compiler phases at the same time
-    let same_template = if r_cfg.chance(1, 4) { Some(r_cfg.below(10)) } else { None };
+    let same_template = if r_cfg.chance(1, 4) { Some(r_cfg.below(11)) } else { None };
     let mut jobs = vec![];
     for i in 0..k {
         let src = if let Some(t) = same_template {
